@@ -240,6 +240,11 @@ class Case:
             self.multi = True
         else:
             self.multi = False
+        self.conc = 0
+        if t[0].startswith("kS"):
+            # n concurrent lookups of the module on ONE Symbolizer (in-process slot per module in front of the supplier)
+            self.conc = int(t[0][2:])
+            t = t[1:]
         if t[0] in ("kB", "kD"):
             self.kind = t[0][1]
             t = t[1:]
@@ -278,6 +283,19 @@ class Case:
         else:
             self.rel = self.target = None
 
+    def blocker(self):
+        """env d / i: the regular file the harness plants where create_cache_file needs a directory (tree entry)"""
+        if self.env not in ("d", "i") or self.rel is None:
+            return None
+        comps = self.rel.split("/")
+        path = comps[0] if self.env == "d" else "/".join(comps[:2])
+        return "%s:%s" % (hx(path.encode()), sig(b"x"))
+
+    def dead_chain(self, i):
+        """the redirect chain of server i leads to a closed port or loops for ever: the client gets no response"""
+        h = self.servers[i]["hops"]
+        return bool(h) and any("127.0.0.1:1/" in l or l.endswith("LOOP") for l in h[1])
+
     def url(self, i):
         return ("http://127.0.0.1:PORT%d%s" % (i, self.target)).encode()
 
@@ -303,13 +321,20 @@ class Case:
     def served(self, i):
         """bytes of a 200 response that the client can take for a complete body, else None"""
         s = self.servers[i]
-        if s["status"] != 200:
+        if s["status"] != 200 or self.dead_chain(i):
             return None
+        fr = s["framing"][0]
+        if fr == "M":
+            # the Content-Length header announces <decl> bytes: HTTP says THAT is the body (the client stops reading there);
+            # a connection that ends earlier is an incomplete body
+            decl = int(s["framing"][1:].split(",")[0])
+            sent = len(s["body"]) if s["cut"] == "-" else (min(len(s["body"]), int(s["cut"][1:])) if s["cut"][0] == "c" else -1)
+            return s["body"][:decl] if sent >= decl else None
         if s["cut"] == "-":
             return s["body"]
-        if s["cut"][0] == "c" and s["framing"][0] == "E":
+        if s["cut"][0] == "c" and fr == "E":
             return s["body"][:int(s["cut"][1:])]
-        if s["cut"][0] == "c" and s["framing"][0] == "L" and int(s["cut"][1:]) >= len(s["body"]):
+        if s["cut"][0] == "c" and fr in "LS" and int(s["cut"][1:]) >= len(s["body"]):
             return s["body"]
         return None
 
@@ -828,6 +853,103 @@ class C16(PropBase):
             add("random", case(mod, servers, pre=pre, locs=locs, env=env, drop=drop))
             if drop != "-":
                 dist["drop"] += 1
+        # ---- round 5, second pass (generated last: the cases above are what they were).  More server behaviours: chunked bodies
+        # with chunk extensions and a trailer section; a Content-Length header that disagrees with the body (shorter: HTTP makes
+        # the announced prefix THE body -- at a line end it parses; longer: the body never completes, nothing may be cached);
+        # slow-loris delivery (head and body dribble in, the server sleeps between the pieces); redirect chains that lead to a
+        # closed port or loop for ever (send() fails: next server).
+        dist.update({"server_behaviours": 0, "cache_dir_failures": 0, "in_process_concurrent": 0})
+
+        def sadd(servers, **kw):
+            add("server_behaviours", case(0, servers, **kw))
+        bad = join(lines[:5] + [b"GARBAGE"] + lines[5:])
+        for rep in range(2 if not thorough else 8):
+            b = base if rep == 0 else bg.body(df0)
+            nb_ = len(b)
+            les = [i + 1 for i, ch in enumerate(b) if ch == 10]
+            if len(les) < 3:
+                continue
+
+            def o3():
+                return ",".join(str(x) for x in sorted({rng.below(nb_) for _ in range(3)}))
+            sadd([srv(framing="T", body=b)])
+            sadd([srv(framing="T" + o3(), body=b)])
+            sadd([srv(framing="T" + ",".join(map(str, les[:12])), body=b)])
+            sadd([srv(framing="T" + o3(), cut="c%d" % rng.below(nb_), body=b), srv(framing="T", body=b)])
+            sadd([srv(framing="T" + o3(), cut="r%d" % rng.choice(les[:-1]), body=b)])
+            sadd([srv(framing="T" + o3(), cut="c%d" % rng.choice(les[:-1]), body=b)])
+            sadd([srv(framing="T" + o3(), body=b)], drop=rng.below(16))
+            sadd([srv(framing="T", body=bad), srv(framing="T" + o3(), body=b)])
+            sadd([srv(500, framing="T", body=b"oops\n"), srv(framing="T" + o3(), body=b)])
+            sadd([srv(framing="T" + o3(), body=b)], env=rng.choice(["t", "c", "w100"]))
+            for d in sorted({0, 1, les[0], les[1], rng.choice(les), rng.choice(les), rng.below(nb_), nb_ - 1}):
+                sadd([srv(framing="M%d" % d, body=b)])
+                if rng.chance(1, 2):
+                    sadd([srv(framing="M%d,%s" % (d, o3()), body=b), srv(body=b)])
+            for d in (nb_ + 1, nb_ + 2, nb_ + 4096):
+                sadd([srv(framing="M%d" % d, body=b)])
+                sadd([srv(framing="M%d,%s" % (d, o3()), body=b), srv(framing="K" + o3(), body=b)])
+            sadd([srv(framing="M%d" % rng.choice(les), body=b)], drop=rng.below(12))
+            sadd([srv(framing="M%d" % (nb_ + 7), body=b)], drop=rng.below(12))
+            sadd([srv(framing="M%d" % rng.choice(les), cut="c%d" % rng.below(nb_), body=b), srv(body=b)])
+            slow = ",".join(str(x) for x in range(23, nb_, max(23, nb_ // 14)))
+            sadd([srv(framing="S" + slow, body=b)])
+            sadd([srv(framing="S", body=b)])
+            sadd([srv(framing="S" + slow, cut="c%d" % rng.below(nb_), body=b), srv(framing="S" + slow, body=b)])
+            sadd([srv(framing="S" + slow, cut="r%d" % rng.choice(les[:-1]), body=b)])
+            sadd([srv(framing="S" + slow, body=bad), srv(body=b)])
+            sadd([srv(404, framing="S", body=b"not here\n"), srv(framing="S" + slow, body=b)])
+            for d in (rng.below(10), rng.below(40)):
+                sadd([srv(framing="S" + slow, body=b)], drop=d)
+            for code in ((302, 307) if not thorough else (301, 302, 303, 307, 308)):
+                for hops in (["http://127.0.0.1:1/dead/" + rel_of(df0)], ["/hop1/x.sym", "http://127.0.0.1:1/gone.sym"], ["/a/LOOP"], ["/first", "/b/c/LOOP"]):
+                    rd = (code, hops)
+                    sadd([srv(body=b, redir=rd)])
+                    sadd([srv(body=b, redir=rd), srv(framing="K" + o3(), body=b)])
+                    if rng.chance(1, 3):
+                        sadd([srv(body=b, redir=rd), srv(body=b, redir=(code, [mirror]))])
+                    if rng.chance(1, 3):
+                        sadd([srv(body=b, redir=rd), srv(body=b)], drop=rng.below(30))
+                    if rng.chance(1, 4):
+                        sadd([srv(body=b, redir=rd)], pre="F" + hx(other))
+        # ---- the directory of the entry cannot be made (a regular file sits where <debug_file>/ or <debug_file>/<id>/ has
+        # to be), or the cache root does not exist yet (create_dir_all makes every level): the lookup still answers from the
+        # download; nothing is cached and no temp file is left in the first two cases
+        for env in ("d", "i", "x"):
+            for rep in range(2 if not thorough else 6):
+                b = base if rep == 0 else bg.body(df0)
+                nb_ = len(b)
+                for fr in ("L", "K%d" % (nb_ // 2), "E", "T%d" % (nb_ // 3)):
+                    add("cache_dir_failures", case(0, [srv(framing=fr, body=b)], env=env))
+                add("cache_dir_failures", case(0, [srv(cut="c%d" % rng.below(nb_), body=b), srv(body=b)], env=env))
+                add("cache_dir_failures", case(0, [srv(body=bad), srv(404), srv(framing="K7", body=b)], env=env))
+                add("cache_dir_failures", case(0, [srv(body=bad)], env=env))
+                add("cache_dir_failures", case(0, [srv(framing="L%d,%d" % (nb_ // 3, 2 * nb_ // 3), body=b)], env=env, drop=rng.below(14)))
+                add("cache_dir_failures", case(0, [srv(body=b)], env=env, locs=["-", "F" + hx(b)]))
+                add("cache_dir_failures", case(0, [srv(body=b, redir=(302, [mirror]))], env=env))
+            add("cache_dir_failures", case(1, [srv(body=join(sym_lines(MODS[1][0])))], env=env))
+            add("cache_dir_failures", case(2, [srv(body=join(sym_lines(MODS[2][0])))], env=env))
+        # ---- one process, one Symbolizer, n concurrent lookups of the same module (`kS<n>`): the per-module slot in front of the
+        # supplier (C12) makes it ONE supplier call, so everything the property says about a lookup holds for the n together:
+        # one download at most, each server asked at most once, one entry, all n answers the same
+        for rep in range(2 if not thorough else 6):
+            b = base if rep == 0 else bg.body(df0)
+            nb_ = len(b)
+            for nconc in (2, 3, 7):
+                def cadd(servers, **kw):
+                    add("in_process_concurrent", "kS%d " % nconc + case(0, servers, **kw))
+                cadd([srv(framing="L%d" % (nb_ // 2), body=b)])
+                cadd([srv(framing="K%d,%d" % (nb_ // 3, 2 * nb_ // 3), body=b)])
+                cadd([srv(404), srv(framing="E", body=b)])
+                cadd([srv(cut="c%d" % rng.below(nb_), body=b), srv(framing="T", body=b)])
+                cadd([srv(cut="r%d" % rng.below(nb_), body=b)])
+                cadd([srv(body=bad), srv(500)])
+                cadd([srv(cut="h"), srv(body=b, redir=(302, [mirror]))])
+                cadd([srv(body=b)], pre="F" + hx(b + b"INFO URL http://elsewhere.example/x.sym\n"))
+                cadd([srv(body=b)], pre="F" + hx(b"BROKEN\n"))
+                cadd([srv(body=b)], env=rng.choice(["t", "c", "d", "w100"]))
+                cadd([srv(body=b)], locs=["F" + hx(b)])
+                cadd([srv(framing="L%d,%d" % (nb_ // 3, 2 * nb_ // 3), body=b)], drop=rng.below(20))
         # the runner shards the case list into contiguous ranges: spread the large bodies (5-200 KB: long lines, big
         # files) evenly over the list, otherwise one shard carries all of them and sets the wall time
         heavy = sorted((c for c in cases if len(c) > 12000), key=lambda c: (-len(c), c))
@@ -987,6 +1109,11 @@ class C16(PropBase):
         if c.multi:
             return self.canon_multi(c, ans)
         bl = parse_blocks(ans)
+        blk = c.blocker()
+        if blk:
+            for b in bl.values():
+                ents = [e for e in ([] if b.get("c", "-") == "-" else b["c"].split(",")) if e != blk]
+                b["c"] = ",".join(ents) or "-"
         return "".join(self.canon_block(c, k, bl[k]) for k in "ABXY" if k in bl)
 
     def canon_model(self, case, ans):
@@ -1002,6 +1129,28 @@ class C16(PropBase):
         bl = parse_blocks(ans)
         if "A" not in bl or "B" not in bl or (c.drop != "-" and ("X" not in bl or "Y" not in bl)):
             return "malformed answer"
+        blk = c.blocker()
+        if blk:
+            # the planted file must still be there, untouched, in every block
+            for name, b in bl.items():
+                ents = [] if b.get("c", "-") == "-" else b["c"].split(",")
+                if blk not in ents:
+                    return "the regular file planted in the cache tree (env %s) was removed or changed (block %s: %s)" % (c.env, name, b.get("c"))
+                ents.remove(blk)
+                b["c"] = ",".join(ents) or "-"
+        if c.conc:
+            # one process, one Symbolizer, n concurrent lookups of ONE module: the supplier is asked exactly once
+            # (so: one download at most, every server asked at most once -- checked below on the request log),
+            # and every lookup gets the same answer
+            k = bl["A"].get("k")
+            if k is None or ":" not in k:
+                return "malformed answer (no k= field of a kS case)"
+            ncalls, rs = k.split(":")
+            if ncalls != "1":
+                return "%d concurrent lookups of one module on one Symbolizer called the supplier %s times" % (c.conc, ncalls)
+            want = ("k" if bl["A"]["r"].startswith("OK:") else "e") * c.conc
+            if rs != want:
+                return "concurrent lookups of one module got different answers: %s (supplier result %s)" % (rs, bl["A"]["r"][:40])
         if c.kind is not None:
             return self.oracle_file(c, bl)
         if c.nodebug and not c.redirected:
@@ -1063,7 +1212,10 @@ class C16(PropBase):
                         i = int(i)
                         want = c.hop_targets(i)
                         k = hop.get(i, 0)
-                        if not idx or idx[-1] != i or k >= len(want) or unhx(t[2:]).decode("utf-8", "replace") != want[k]:
+                        tgt = unhx(t[2:]).decode("utf-8", "replace")
+                        if idx and idx[-1] == i and k >= 1 and k <= len(want) and want[k - 1].endswith("LOOP") and tgt == want[k - 1]:
+                            continue        # a location that redirects to itself: asked again until the client gives up
+                        if not idx or idx[-1] != i or k >= len(want) or tgt != want[k]:
                             return "unexpected follow-up request %r to server %d" % (unhx(t), i)
                         hop[i] = k + 1
                         continue
